@@ -1,7 +1,7 @@
 from pat import *
 from expr import fmt, walk
 from harness import Skip
-from rules import flp_guards
+from rules import flp_guards, flp_shape
 from rules.common import loop_covers_all, eqcov_impl
 
 INFO = {
@@ -195,6 +195,10 @@ def run(ctx):
             ctx.require_try_call(rule, f, Call("parallel_sum_range_checks"), dominates=True,
                                  desc="parallel_sum_range_checks(..)", key="%s:%s:range-check-propagated" % (rule, f.id)) \
                 if not any(rd.kind == "call" for rd in g.retdefs) else ctx.ok(rule, "%s:%s:range-check-propagated" % (rule, f.id), "tail position", loc=f.loc)
+    # the range check zips input chunks with the joint randomness: a joint_rand_len below
+    # ceil(input_len / chunk_length) silently leaves the last chunk(s) unchecked
+    flp_shape.run_shape(ctx, "R-C02.S")
+    ctx.floor("R-C02.S", 40)
     ctx.floor("R-C02.G.range", 9)
     ctx.floor("R-C02.G.combine", 7)
     ctx.floor("R-C02.G.seedcheck", 2)
